@@ -540,6 +540,15 @@ fn gen_e2e(out: &mut impl std::io::Write, seed: u64, n: u64, big: bool, which: &
         };
         scenarios.push(Scenario { t, sender, receiver, sender_connects: rng.chance(2, 3), msgs, shape, fragment: t == 'W' && sender == Peer::Raw && rng.chance(1, 2), controls });
     }
+    // bytes waiting before the connect is noticed (always run, before the scenarios)
+    for t in ['T', 'F'] {
+        if which.contains(t) {
+            for sizes in [vec![5usize, 70000, 1], vec![65535, 65536, 3], vec![1]] {
+                let (c, i, o, tg) = run_early_bytes(t, &sizes);
+                emit(out, &c, &i, &o, &tg);
+            }
+        }
+    }
     // run 8 scenarios at a time
     let results = Arc::new(Mutex::new(vec![None; scenarios.len()]));
     let next = Arc::new(std::sync::atomic::AtomicUsize::new(0));
@@ -572,6 +581,152 @@ fn gen_e2e(out: &mut impl std::io::Write, seed: u64, n: u64, big: bool, which: &
         let (c, i, o, t) = r.clone().unwrap();
         emit(out, &c, &i, &o, &t);
     }
+}
+
+/// bytes that are already waiting when the processor sees the event that completes the connect: a raw
+/// acceptor writes right after `accept()`, before the connecting side has polled at all (processor
+/// pumped by hand); everything must be delivered by the events of that first pump, then silence
+fn run_early_bytes(t: char, sizes: &[usize]) -> (String, String, String, String) {
+    use message_io::network;
+    let msgs: Vec<Vec<u8>> = sizes.iter().enumerate().map(|(i, s)| make_msg(i, *s)).collect();
+    let toks: Vec<String> = msgs.iter().map(|m| chunk_to_text(m)).collect();
+    let case = format!("stream e2e {} - {}", t, toks.join(" "));
+    let tags = format!("{}raw>node,a2c,early-bytes,burst3,boundary", t);
+    let l = match std::net::TcpListener::bind("127.0.0.1:0") {
+        Ok(l) => l,
+        Err(_) => return (case, "setup".into(), "FAIL setup".into(), tags),
+    };
+    let (ctl, mut proc_) = network::split();
+    let (ep, _) = ctl.connect(transport(t), l.local_addr().unwrap()).unwrap();
+    let (mut s, _) = l.accept().unwrap();
+    s.set_nodelay(true).ok();
+    let mut wire: Vec<u8> = vec![];
+    for m in &msgs {
+        if t == 'F' {
+            wire.extend_from_slice(&varint(m.len() as u64));
+        }
+        wire.extend_from_slice(m);
+    }
+    let writer = std::thread::spawn(move || {
+        let _ = s.write_all(&wire);
+        s
+    });
+    std::thread::sleep(Duration::from_millis(40));
+    let mut events: Vec<String> = vec![];
+    let mut got: Vec<Vec<u8>> = vec![];
+    let total: usize = msgs.iter().map(|m| m.len()).sum();
+    let deadline = Instant::now() + DELIVERY_TIMEOUT;
+    loop {
+        proc_.process_poll_events_until_timeout(Duration::from_millis(50), |ev| match ev {
+            NetEvent::Connected(e, ok) if e == ep => events.push(format!("C{}", ok)),
+            NetEvent::Message(e, d) if e == ep => {
+                events.push("M".into());
+                got.push(d.to_vec());
+            }
+            NetEvent::Disconnected(_) => events.push("D".into()),
+            _ => events.push("?".into()),
+        });
+        let have: usize = got.iter().map(|m| m.len()).sum();
+        let done = if t == 'T' { have >= total } else { got.len() >= msgs.len() };
+        if done || Instant::now() > deadline {
+            break
+        }
+    }
+    let _peer = writer.join();
+    let connected_first = events.first().map(|e| e == "Ctrue").unwrap_or(false);
+    let (imp, ok) = if t == 'T' {
+        let all: Vec<u8> = got.concat();
+        let bounds = got.iter().all(|c| !c.is_empty() && c.len() <= message_io::adapters::tcp::INPUT_BUFFER_SIZE);
+        (format!("{} bounds={}", show_payload(&all), bounds), all == msgs.concat() && bounds)
+    }
+    else {
+        (show_outs(&got), got == msgs)
+    };
+    let ok = ok && connected_first && !events.iter().any(|e| e == "D" || e == "?");
+    (case, imp, if ok { "ok".into() } else { format!("FAIL early bytes: events {:?}", events.iter().take(12).collect::<Vec<_>>()) }, tags)
+}
+
+/// C10 with a stalled receiver: thread 0 sends one message of several socket buffers and gets stuck in the
+/// middle of its frame (WouldBlock) for as long as the receiver's callback sleeps; the other threads start
+/// later and send small messages to the same endpoint: they must wait for the frame in progress
+fn run_mt_slow(t: char, big: usize) -> (String, String, String, String) {
+    let tr = transport(t);
+    let (rh, rl) = node::split::<()>();
+    let (_lid, addr) = rh.network().listen(tr, "127.0.0.1:0").unwrap();
+    let got: Arc<Mutex<Vec<Vec<u8>>>> = Arc::new(Mutex::new(vec![]));
+    let g2 = got.clone();
+    let _rtask = rl.for_each_async(move |e| {
+        if let NodeEvent::Network(ne) = e {
+            match ne {
+                NetEvent::Accepted(..) => std::thread::sleep(Duration::from_millis(700)),
+                NetEvent::Message(_, d) => g2.lock().unwrap().push(d.to_vec()),
+                _ => {}
+            }
+        }
+    });
+    let c = TestNode::new();
+    let (ep, _) = c.handler.network().connect(tr, addr).unwrap();
+    if c.connected(DELIVERY_TIMEOUT).map(|x| x.1) != Some(true) {
+        return ("#mt-setup".into(), "error".into(), "FAIL setup".into(), "mt".into())
+    }
+    let counts = [1usize, 30, 30];
+    let mk = |th: usize, seq: usize, size: usize| {
+        let mut m = vec![(th as u8) ^ 0xa5; size.max(16)];
+        m[0..4].copy_from_slice(&(th as u32).to_le_bytes());
+        m[4..8].copy_from_slice(&(seq as u32).to_le_bytes());
+        m[8..16].copy_from_slice(&(size.max(16) as u64).to_le_bytes());
+        m
+    };
+    let mut hs = vec![];
+    for th in 0..counts.len() {
+        let h = c.handler.clone();
+        hs.push(std::thread::spawn(move || {
+            if th > 0 {
+                std::thread::sleep(Duration::from_millis(150));
+            }
+            let mut bad = 0;
+            for seq in 0..counts[th] {
+                let m = mk(th, seq, if th == 0 { big } else { 200 });
+                if h.network().send(ep, &m) != SendStatus::Sent {
+                    bad += 1;
+                }
+            }
+            bad
+        }));
+    }
+    let bad_sends: usize = hs.into_iter().map(|h| h.join().unwrap()).sum();
+    let want: usize = counts.iter().sum();
+    let deadline = Instant::now() + Duration::from_secs(10);
+    while got.lock().unwrap().len() < want && Instant::now() < deadline {
+        std::thread::sleep(Duration::from_millis(10));
+    }
+    std::thread::sleep(Duration::from_millis(60));
+    rh.stop();
+    let msgs = got.lock().unwrap().clone();
+    let mut toks = vec![];
+    let mut corrupt = 0;
+    for m in &msgs {
+        if m.len() < 16 {
+            corrupt += 1;
+            continue
+        }
+        let th = u32::from_le_bytes(m[0..4].try_into().unwrap()) as usize;
+        let seq = u32::from_le_bytes(m[4..8].try_into().unwrap());
+        let len = u64::from_le_bytes(m[8..16].try_into().unwrap()) as usize;
+        if th >= counts.len() || len != m.len() || m[16..].iter().any(|b| *b != (th as u8) ^ 0xa5) {
+            corrupt += 1;
+            continue
+        }
+        toks.push(format!("{}.{}", th, seq));
+    }
+    let case = format!("stream mtslow {} {} {}", t, counts.iter().map(|c| c.to_string()).collect::<Vec<_>>().join(","), toks.join(" "));
+    let ok = corrupt == 0 && bad_sends == 0 && msgs.len() == want;
+    (
+        case,
+        if corrupt == 0 { "ok".into() } else { format!("corrupt={}", corrupt) },
+        if ok { "ok".into() } else { format!("FAIL corrupt={} bad_sends={} got={}/{}", corrupt, bad_sends, msgs.len(), want) },
+        format!("mt{},interleaved,multi-buffer,slow-receiver", t),
+    )
 }
 
 /// C10: several threads (and the receiver's own callback thread of the *sending* node) send on one endpoint
@@ -729,6 +884,12 @@ fn main() {
                 let w = arg(4);
                 if w.is_empty() { "FWU".chars().collect() } else { w.chars().collect() }
             };
+            for t in ['F', 'W'] {
+                if which.contains(&t) {
+                    let (c, im, o, tg) = run_mt_slow(t, 24 << 20);
+                    emit(&mut out, &c, &im, &o, &tg);
+                }
+            }
             for i in 0..n {
                 let t = which[(i as usize) % which.len()];
                 let threads = *rng.pick(&[2usize, 4, 8]);
@@ -757,6 +918,7 @@ fn main() {
                     cases.push(('U', c2a, len));
                 }
                 cases.push(('W', c2a, (16 << 20) + 1));
+                cases.push(('W', c2a, 32 << 20)); // the declared maximum itself
                 cases.push(('W', c2a, (32 << 20) + 1));
                 cases.push(('F', c2a, 70000));
                 cases.push(('T', c2a, 70000));
@@ -767,7 +929,11 @@ fn main() {
                     cases.push(('F', c2a, 40 << 20));
                 }
             }
+            let only = arg(3);
             for (t, c2a, len) in cases {
+                if !only.is_empty() && !only.contains(t) {
+                    continue
+                }
                 let (c, i, o, tg) = run_size(t, c2a, len);
                 emit(&mut out, &c, &i, &o, &tg);
             }
